@@ -42,6 +42,7 @@ func C09(r *core.Run) {
 func C11(r *core.Run) {
 	panicScope(r, entriesC11...)
 	referenceEntryGuard(r)
+	lexerErrorsPositioned(r)
 	positionsAssigned(r)
 	positionsCoverConsumed(r)
 	errorListDiscipline(r)
@@ -56,6 +57,7 @@ func C19(r *core.Run) {
 	fmtDiffForms(r)
 	editsDisjoint(r)
 	attachedCommentOneLine(r)
+	documentLinesVerbatim(r)
 	renderedTextOpaque(r)
 	gapAgreement(r)
 }
